@@ -191,7 +191,9 @@ fn plan_hash(hist: u64, p: &FaultPlan) -> u64 {
 
 pub fn kinds(tier: Tier) -> Vec<Fault> {
     let mut k: Vec<Fault> = Vec::new();
-    let errs: &[ErrK] = if tier == Tier::Thorough { &ERRK_ALL } else { &ERRK_QUICK };
+    // every constructible ErrorKind in both tiers: the library must not treat any kind specially
+    let errs: &[ErrK] = &ERRK_ALL;
+    let _ = &ERRK_QUICK;
     for e in errs {
         k.push(Fault::ErrOnce(*e));
     }
